@@ -636,7 +636,7 @@ def c08(ck):
 
 
 @check("C15", design_ref="4 C15",
-       technique="TLA+ parser model (bounds as unbounded integers, Atoi saturation) as oracle; trace validation of a complete small-number sweep of size declarations and of ASCII-variable fills",
+       technique="TLC model checking that the TLA+ parser model (bounds as unbounded integers, Atoi saturation) accepts a sized literal iff its count lies within the bounds and otherwise reports at the declaration, for every case of a bounded scope; those cases replayed through the real parser; trace validation of a complete small-number sweep of size declarations and of ASCII-variable fills",
        text="All four declaration forms x 14 item types x all (lower, upper, actual) triples in 0..3, with and without inner blanks, plus huge and "
             "overflowing bounds, are parsed by the real parser; TLC checks accept/reject and the error position (the declaration) against the "
             "specification. ASCII variables with every bound form are parsed, printed back (the specification re-parses the real printed form) and "
@@ -646,6 +646,18 @@ def c15(ck):
     ck.rule.append("4 forms x 14 types x lo,hi,n in 0..3 (1568 texts) + 168 huge-bound texts + 14 ASCII-variable declarations x 10 fill lengths; "
                    "non-trivial = every event; distinct by text")
     ck.exhaustive = True
+    # model stage: the parser model against the statement of C15 on the numbers themselves; every case then through the real parser
+    ck.rule.append("model: MCSizes - 14 types x 4 declaration forms x bounds 0..3 (thorough 0..5), written with and without a leading zero and inner "
+                   "blanks, x counts 0..4 (0..6): accepted iff the count lies within the bounds, otherwise exactly one error at the declaration; "
+                   "ASCII variables of every form keep their bounds through the printer model; TLC -> Go: every literal case through the real parser")
+    r = ck.model("MCSizes", "MCSizes", "MCSizes_%s.cfg" % ck.tier, timeout=q(ck, 600, 3000))
+    if not r.cases:
+        raise ToolError("MCSizes emitted no cases")
+    table = write_cases(ck, r.cases, "sizecases.ndjson")
+    ev = ck.trace("size-replay", "lit-replay", ["-in", table, "-n", 1], "TraceSml", "TraceSml.cfg", ["InvC15x", "InvC15"], agree=["InvAgreeParse"], key=SML_KEY)
+    ck.replayed += len(ev)
+    if ck.violations:
+        return
     ck.trace("sizes", "sizes", [], "TraceSml", "TraceSml.cfg", ["InvC15", "InvC15v"], agree=["InvAgreeParse"], key=SML_KEY)
     ck.assumptions.append(SML_NOTE)
 
